@@ -120,6 +120,8 @@ def search(chk, broken):
     tables = [pbc.TableG1, pbc.TableG7, pbc.TableG2, pbc.TableG5, pbc.TableG6, pbc.TableG8, pbc.TableGI, pbc.TableGS, pbc.TableRA4]
     evals = 0
     for _ in range(n):
+        if chk.over():
+            break
         table = rng.choice(tables)
         pts = gen_points(pbc, rng)
         spec = sorted([(p.Mach, p.BC) for p in pts])
